@@ -5,22 +5,5 @@
 (* IOEnv.VT_POOL, written by vt/props/c16.py.                               *)
 EXTENDS History, IOUtils
 
-Pool == JsonDeserialize(IOEnv.VT_POOL)
-
-PCfgs     == DOMAIN Pool.flag
-PFlag     == Pool.flag
-PGrammars == {Pool.flag[c].grammar : c \in PCfgs}
-PInputs   == [g \in PGrammars |-> Range(Pool.inputs[g])]
-PWInputs  == [g \in PGrammars |-> Range(Pool.winputs[g])]
-PFresh    == Pool.fresh
-PFreshMM  == Pool.freshmm
-PAlt      == Pool.alt
-PNested   == [g \in PGrammars |-> [i \in PInputs[g] |-> Range(Pool.nested[g][i])]]
-PDefs     == [g \in PGrammars |-> [i \in PInputs[g] |-> Range(Pool.defs[g][i])]]
-PUnres    == [g \in PGrammars |-> [i \in PInputs[g] |-> Range(Pool.unres[g][i])]]
-PNImp     == Pool.nimp
-PSlots    == 1..Pool.slots
-PMaxOps   == Pool.maxops
-PDev      == Range(Pool.dev)
-PBreak    == Range(Pool.brk)
+ThePool == JsonDeserialize(IOEnv.VT_POOL)
 =============================================================================
